@@ -53,7 +53,7 @@ type c11Batch struct {
 	UDP       int
 }
 
-var c11Patterns = []string{"stray-only", "stray-then-right", "stale-previous", "unsolicited-twice", "reordered", "busy-stray-giveup"}
+var c11Patterns = []string{"stray-only", "stray-then-right", "stale-previous", "unsolicited-twice", "reordered", "busy-stray-giveup", "encapsulated"}
 
 func init() {
 	register(&Check{
@@ -290,6 +290,19 @@ func c11Run(run *ev.Run, o c11One) {
 			}
 			strays++
 			return wrap(strayMsg(last)), nil
+		case "encapsulated":
+			// a stray reply to a bridging command (Send Message, or Master Write-Read) whose data
+			// bytes are themselves a well-formed response message to the command in flight
+			if attempt == 1 {
+				strays++
+				body := c11Body(opB, 0xe1)
+				if opB.NoRsp {
+					body = nil
+				}
+				inner := refbmc.BuildRsp(0x81, opB.NetFn+1, 0, 0x20, last.RqSeq, 0, opB.Cmd, o.StrayCode, body)
+				bridge := []byte{0x34, 0x52}[(o.A+o.B)%2]
+				return wrap(refbmc.BuildRsp(0x81, 0x07, 0, 0x20, last.RqSeq, 0, bridge, 0, inner)), nil
+			}
 		case "reordered":
 			// B's own reply is held back and A's arrives first; B's arrives on the retry
 			if attempt == 1 {
